@@ -71,6 +71,16 @@ def gen_case(rng: Rng, i: int, tier: str):
                   "iv_seed": 1, "no_substreams": False, "header_crc": True}
         return {"members": members, "layout": layout, "open": rb.pick(["stream", "path", "anon"]),
                 "read": {"block": rb.pick([4096, 32768, 1048576]), "chunk": rb.pick([4096, 128000000])}}
+    rx = rng.sub("exactmib")
+    if rx.chance(0.004):
+        # directed: a member of exactly 2 or 3 MiB that compresses to almost nothing, read with the default knobs: the decoder hands
+        # the whole member out as one piece whose length is a multiple of every internal block size
+        members = [{"name": "exact.bin", "kind": "file", "content": {"tex": rx.pick(["zero", "rep"]), "len": rx.pick([2, 3]) << 20, "seed": rx.randrange(1 << 30)},
+                    "mtime": None, "ctime": None, "atime": None, "attrs": None}]
+        layout = {"folders": [{"members": [0], "chain": [dict(f) for f in rx.pick([[{"id": "LZMA2"}], [{"id": "ZSTD"}], [{"id": "DEFLATE"}], [{"id": "LZMA"}]])]}],
+                  "crc": rx.pick(["substream", "folder"]), "packcrc": False, "packpos": 0, "omit_nums": False, "dummy": 0, "dummy_tail": 0,
+                  "emptyfile_vector_always": False, "names_first": True, "header": "raw", "password": None, "iv_seed": 1, "no_substreams": False, "header_crc": True}
+        return {"members": members, "layout": layout, "open": rx.pick(["stream", "path", "anon"]), "read": {"block": 1048576, "chunk": 128000000}}
     n = r.wpick([(1, 0), (2, 1), (3, 2), (3, 4), (2, 6), (1, 9)])
     members = []
     names = []
